@@ -205,6 +205,24 @@ def name2(ctx) -> List[Ob]:
                 out.append(bad("NAME-2", m.qualname, skey, swhere, "; ".join(sorted(set(problems)))))
             else:
                 out.append(ok("NAME-2", m.qualname, skey, swhere, "stores index + 1 where index is this path's counter value (or 0 for a new kind)"))
+    # census of the writers of the counters: they only move forward - written by the naming methods (index + 1) and by
+    # the reader's seeding (max(old, seen + 1)); never cleared, restored from a snapshot or replaced
+    for fn in ctx.prog.functions:
+        for n_ in A.walk_no_nested(fn.node):
+            bad_txt = None
+            if isinstance(n_, ast.Call) and isinstance(n_.func, ast.Attribute) and n_.func.attr in ("clear", "update", "pop", "popitem", "setdefault", "__setitem__", "__delitem__") and isinstance(n_.func.value, ast.Attribute) and n_.func.value.attr == "kinds":
+                bad_txt = A.unparse(n_)
+            elif isinstance(n_, (ast.Assign, ast.AugAssign, ast.Delete)):
+                tg = n_.targets if isinstance(n_, (ast.Assign, ast.Delete)) else [n_.target]
+                for t_ in tg:
+                    if isinstance(t_, ast.Attribute) and t_.attr == "kinds" and fn.name not in ("__init__", "__post_init__"):
+                        bad_txt = A.unparse(n_)
+                    elif isinstance(t_, ast.Subscript) and isinstance(t_.value, ast.Attribute) and t_.value.attr == "kinds" and fn.cls is not cls:
+                        v_ = n_.value if isinstance(n_, ast.Assign) else None
+                        if not (isinstance(v_, ast.Call) and isinstance(v_.func, ast.Name) and v_.func.id == "max"):
+                            bad_txt = A.unparse(n_)
+            if bad_txt:
+                out.append(bad("NAME-2", fn.qualname, "counters only move forward: " + A.alpha_key(n_)[:50], ctx.where(fn, n_), f"'{bad_txt[:60]}' sets the per-kind counters back (or replaces them): names that are already in a graph are handed out again - a region stored under a re-used name overwrites the earlier one"))
     # the mapping is the generator's own field, created once per generator
     key = "shared counter mapping"
     if fld is None:
